@@ -287,6 +287,15 @@ theorem rate_bound (s : St) (tss : List Int) (hd : 0 < s.delta) (h0 : s.prev = n
   have := window_index s tss hd h0 ha i k a b hi hj
   omega
 
+/-- **C19.releases_increasing**: consecutive releases of a history are strictly increasing — requests leave
+in the order they were asked for and no two at the same instant. -/
+theorem releases_increasing (s : St) (tss : List Int) (hd : 0 < s.delta) (h0 : s.prev = none)
+    (ha : AdmissibleFresh s tss) (i : Nat) (a b : Int)
+    (hi : (run s tss)[i]? = some a) (hj : (run s tss)[i + 1]? = some b) : a < b := by
+  have := window_index s tss hd h0 ha i 0 a b hi (by simpa using hj)
+  simp only [Int.natCast_zero, Int.zero_mul] at this
+  omega
+
 /-- **C19.ctor**: non-positive rates and rates above 10^9 (interval truncates to 0) are
 refused; every constructed policer has a positive interval and no history. -/
 theorem ctor_refuses (pos : Bool) (q : Int) (hq : 0 ≤ q) :
